@@ -51,6 +51,41 @@ func addrOfLocal(x int) *int {
 	return &y
 }
 
+// the address is taken one and two frames below the frame that owns the variable
+// (blocks with their own locals get their own frame)
+func addrInBlock(x int) *int {
+	y := x + 1
+	if x >= 0 {
+		z := y * 2
+		y += z
+		return &y
+	}
+	return &y
+}
+
+func addrInBlock2(x int) (*int, *float64, *bool) {
+	a := x * 3
+	f := float64(x) / 2
+	b := x%2 == 0
+	var pa *int
+	var pf *float64
+	var pb *bool
+	for i := 0; i < 1; i++ {
+		k := i + a
+		if k >= i {
+			m := k + 1
+			pa = &a
+			pf = &f
+			a += m - m
+		}
+		pb = &b
+	}
+	return pa, pf, pb
+}
+
+var gfptrs []*float64
+var gbptrs []*bool
+
 func addrOfBoth(x int) (*int, *int) {
 	a := x
 	b := x * 3
@@ -215,6 +250,7 @@ func churn2(n int) int {
 
 func Main() {
 	gfuncs, gsetters, gptrs, gsptrs = nil, nil, nil, nil
+	gfptrs, gbptrs = nil, nil
 	gmap = make(map[int]func(int) int)
 	ghook = func() {
 		gfuncs = append(gfuncs, func() int {
@@ -223,7 +259,14 @@ func Main() {
 	}
 	steps := 6 + hook.Choose(14)
 	for s := 0; s < steps; s++ {
-		switch hook.Choose(19) {
+		switch hook.Choose(21) {
+		case 19:
+			gptrs = append(gptrs, addrInBlock(hook.Choose(20)))
+		case 20:
+			pa, pf, pb := addrInBlock2(s + hook.Choose(9))
+			gptrs = append(gptrs, pa)
+			gfptrs = append(gfptrs, pf)
+			gbptrs = append(gbptrs, pb)
 		case 14:
 			gfuncs = append(gfuncs, viaIIFE(hook.Choose(30)))
 		case 15:
@@ -292,6 +335,12 @@ func Main() {
 	}
 	for i, p := range gsptrs {
 		hook.Ev("final-sp", i, p.n)
+	}
+	for i, p := range gfptrs {
+		hook.Ev("final-fp", i, *p)
+	}
+	for i, p := range gbptrs {
+		hook.Ev("final-bp", i, *p)
 	}
 	for k := 0; k < steps; k++ {
 		if f, ok := gmap[k]; ok {
